@@ -1,5 +1,6 @@
 (* C05 — Reverse mirrors coordinates (parts in mirrored order, none lost). *)
-From GTS Require Import Base Arith Loc Seq BaseLemmas LocProofs EditProofs SeqProofs JoinDen JoinLift.
+From GTS Require Import Base Arith Loc Seq BaseLemmas LocProofs EditProofs SeqProofs JoinDen JoinLift RotateProofs RotateJoin InsertSeq Region RegionProofs ResizeProofs RevCompProofs.
+From Coq Require Import Permutation.
 Open Scope Z_scope.
 
 (* den (reverse l L) = rev (map (mirror L) (den l)): residue x is denoted
@@ -36,4 +37,72 @@ Example C05_example :
   let l := Ordered [Ranged 0 2 true false; Point 3; Complemented (Ranged 5 7 false true)] in
   jfree l = true /\ ord_ok l = true /\ wf_all range_wf l = true /\
   reverse l 8 = Ok (Ordered [Complemented (Ranged 1 3 true false); Point 4; Ranged 6 8 false true]).
+Proof. vm_compute. repeat split; reflexivity. Qed.
+
+(* Whole records.  Reverse of a record of length L: whenever every location is
+   free of the K1 shapes after Reverse and the operation returns a location
+   (rev_ok), the call succeeds, the residues are reversed, the output table is
+   a permutation of the input table in which every feature occurs exactly once
+   with its key and qualifiers, and every feature denotes the mirror image of
+   its former residues, parts in mirrored order -- whatever its key. *)
+Theorem C05_reverse_record : forall s, let L := zlen (residues s) in
+  Forall (rev_ok L) (feats s) ->
+  exists gg ls, seq_reverse s = Ok (mkseq gg (rev (residues s))) /\
+    Forall2 (fun f l => deq (den l) (rev_den L (den (floc f)))) (feats s) ls /\
+    Permutation gg (relocate (feats s) ls).
+Proof. exact seq_reverse_features. Qed.
+Print Assumptions C05_reverse_record.
+
+Example C05_record_hypotheses_met :
+  let s := mkseq [mkfeat [115; 111; 117; 114; 99; 101] (Joined [Ranged 5 9 true false; Ranged 0 5 false false]) [];
+                  mkfeat [103] (Complemented (Joined [Ranged 1 3 true false; Ranged 4 7 false false])) []]
+                 [97; 99; 103; 116; 97; 99; 103; 116; 97] in
+  Forall (rev_ok 9) (feats s) /\
+  seq_reverse s =
+    Ok (mkseq [mkfeat [115; 111; 117; 114; 99; 101] (Joined [Ranged 4 9 false false; Ranged 0 4 false true]) [];
+               mkfeat [103] (Complemented (Joined [Ranged 2 5 false false; Ranged 6 8 false true])) []]
+              [97; 116; 103; 99; 97; 116; 103; 99; 97]).
+Proof.
+  cbv zeta. cbn [feats].
+  repeat match goal with
+  | |- _ /\ _ => split
+  | |- Forall _ (_ :: _) => constructor
+  | |- Forall _ [] => constructor
+  | |- rev_ok _ _ => split; [vm_compute; reflexivity|split]
+  | |- k1_after _ _ => apply k1_afterb_spec; vm_compute; reflexivity
+  | |- exists _, _ => eexists; vm_compute; reflexivity
+  end.
+  vm_compute. reflexivity.
+Qed.
+
+(* reverse-complement preserves meaning.  rc_bytes p = the residues of the
+   reverse complement of p; rd p (x, strand) = the residue read at a denoted
+   position (p[x], complemented on the reverse strand; C08_locate_reads_den:
+   this is what Region.Locate reads).  For every location in range whose
+   Reverse is free of the K1 shapes: what the feature reads from the
+   reverse-complemented record (location reversed, then complemented) is what
+   it read from the original, residue by residue in the same order.  The
+   residues must be fixed by complementing twice: every IUPAC letter except
+   u/U (C18), as the property says. *)
+Theorem C05_revcomp_extracts_the_same : forall (p : list byte) l l', let L := zlen p in
+  Forall (fun b => cb (cb b) = b) p -> Forall (fun x => 0 <= fst x < L) (den l) ->
+  wf_all range_wf l = true -> k1_after (fun x => reverse x L) l -> reverse l L = Ok l' ->
+  deq (map (rd (rc_bytes p)) (den (complement l'))) (map (rd p) (den l)).
+Proof. exact revcomp_extract. Qed.
+Print Assumptions C05_revcomp_extracts_the_same.
+
+(* ... position by position: the mirror image on the other strand *)
+Theorem C05_revcomp_positions : forall L l, wf_all range_wf l = true -> k1_after (fun x => reverse x L) l ->
+  forall l', reverse l L = Ok l' -> deq (den (Complemented l')) (map (rc_pos L) (den l)).
+Proof. exact revcomp_den_all. Qed.
+Print Assumptions C05_revcomp_positions.
+
+Example C05_revcomp_example :
+  let p := [97; 99; 103; 116; 116; 103; 99; 97; 97] in
+  let l := Complemented (Joined [Ranged 1 3 true false; Ranged 4 7 false false]) in
+  forallb (fun b => cb (cb b) =? b) p = true /\
+  reverse l 9 = Ok (Complemented (Joined [Ranged 2 5 false false; Ranged 6 8 false true])) /\
+  map (rd p) (den l) = [103; 99; 97; 99; 103] /\
+  map (rd (rc_bytes p)) (den (complement (Complemented (Joined [Ranged 2 5 false false; Ranged 6 8 false true]))))
+    = [103; 99; 97; 99; 103].
 Proof. vm_compute. repeat split; reflexivity. Qed.
